@@ -93,7 +93,8 @@ func runReplays(propID string, reqs []replayReq) []replayRes {
 			for _, i := range g.idx {
 				paths = append(paths, out[i].path)
 			}
-			outs, err := nativeReplay(g.dir, g.harness, paths)
+			isRace := len(g.idx) == 1 && reqs[g.idx[0]].kind == "race"
+			outs, err := nativeReplayOpt(g.dir, g.harness, paths, isRace)
 			for _, i := range g.idx {
 				r := &out[i]
 				if err != "" {
@@ -103,6 +104,18 @@ func runReplays(propID string, reqs []replayReq) []replayRes {
 				o := outs[r.path]
 				r.reproduced = o.reproduced
 				r.outcome = o.outcome
+				if reqs[i].kind == "race" {
+					// confirmed iff the race detector reports a race between the two functions of the candidate
+					r.reproduced = false
+					fa, fb := candFns(reqs[i].label)
+					r.outcome = fmt.Sprintf("race detector: %d report(s), none between %s and %s", len(o.races), fa, fb)
+					for _, rp := range o.races {
+						if (inStack(rp[0], fa) && inStack(rp[1], fb)) || (inStack(rp[0], fb) && inStack(rp[1], fa)) {
+							r.reproduced = true
+							r.outcome = fmt.Sprintf("race detector reports a data race between %s and %s", fa, fb)
+						}
+					}
+				}
 				if reqs[i].kind == "witness" && o.reproduced {
 					r.obsMismatch, r.obsCompared = compareObserved(reqs[i].obs, o.observed)
 				}
@@ -114,6 +127,7 @@ func runReplays(propID string, reqs []replayReq) []replayRes {
 }
 
 type nativeOut struct {
+	races      [][2][]string
 	reproduced bool
 	outcome    string
 	observed   string
@@ -124,6 +138,91 @@ var entryRe = regexp.MustCompile(`(?m)^func (VerifH_\w+)\(\)`)
 // nativeReplay compiles the harness into the package under test with a go test overlay and runs
 // the replay files through it.  Nothing is written under the repository.
 func nativeReplay(dir, harness string, paths []string) (map[string]nativeOut, string) {
+	return nativeReplayOpt(dir, harness, paths, false)
+}
+
+// normFn brings SSA function names ((*pkg.T).M$1) and runtime names (pkg.(*T).M.func1) to one form (T.M.func1).
+func normFn(f string) string {
+	f = strings.TrimSuffix(strings.TrimSpace(f), "()")
+	f = strings.ReplaceAll(f, "$", ".func")
+	f = strings.ReplaceAll(f, "(*", "")
+	f = strings.ReplaceAll(f, ")", "")
+	f = strings.ReplaceAll(f, "(", "")
+	// drop the package path: keep what follows the last '/' and then the first '.'
+	if i := strings.LastIndex(f, "/"); i >= 0 {
+		f = f[i+1:]
+	}
+	if i := strings.Index(f, "."); i >= 0 {
+		f = f[i+1:]
+	}
+	return f
+}
+
+// raceReports extracts, from race-detector output, the two stacks (normalised function names) of each report.
+func raceReports(out string) [][2][]string {
+	var reps [][2][]string
+	lines := strings.Split(out, "\n")
+	for i := 0; i < len(lines); i++ {
+		if !strings.Contains(lines[i], "WARNING: DATA RACE") {
+			continue
+		}
+		var stacks [][]string
+		for j := i + 1; j < len(lines) && j < i+300 && len(stacks) < 2; j++ {
+			l := strings.TrimSpace(lines[j])
+			if strings.HasPrefix(l, "==================") {
+				break
+			}
+			if strings.HasPrefix(l, "Read at") || strings.HasPrefix(l, "Write at") || strings.HasPrefix(l, "Previous read at") || strings.HasPrefix(l, "Previous write at") ||
+				strings.HasPrefix(l, "Atomic") || strings.HasPrefix(l, "Previous atomic") {
+				var st []string
+				for k := j + 1; k < len(lines); k++ {
+					f := strings.TrimSpace(lines[k])
+					if f == "" {
+						break
+					}
+					if strings.HasSuffix(f, ")") && !strings.HasPrefix(f, "/") {
+						st = append(st, normFn(f))
+					}
+				}
+				stacks = append(stacks, st)
+			}
+		}
+		if len(stacks) == 2 {
+			reps = append(reps, [2][]string{stacks[0], stacks[1]})
+		}
+	}
+	return reps
+}
+
+// candFns extracts the two functions of a race-candidate label "desc: fnA (R) || fnB (W)".
+func candFns(label string) (string, string) {
+	i := strings.Index(label, ": ")
+	if i < 0 {
+		return "", ""
+	}
+	parts := strings.Split(label[i+2:], " || ")
+	if len(parts) != 2 {
+		return "", ""
+	}
+	cut := func(x string) string {
+		if j := strings.LastIndex(x, " ("); j >= 0 {
+			x = x[:j]
+		}
+		return normFn(x)
+	}
+	return cut(parts[0]), cut(parts[1])
+}
+
+func inStack(st []string, f string) bool {
+	for _, x := range st {
+		if x == f {
+			return true
+		}
+	}
+	return false
+}
+
+func nativeReplayOpt(dir, harness string, paths []string, race bool) (map[string]nativeOut, string) {
 	pkgDir := filepath.Join(repoRoot(), dir)
 	scratch, err := os.MkdirTemp("", "verif.replay.")
 	if err != nil {
@@ -173,7 +272,7 @@ func nativeReplay(dir, harness string, paths []string) (map[string]nativeOut, st
 			replace[src] = "" // mask the package's own tests
 			continue
 		}
-		if !usesNow && !usesLock {
+		if !usesNow && !usesLock && len(loadRewrites(hdir)) == 0 {
 			continue
 		}
 		b, err := os.ReadFile(src)
@@ -187,6 +286,15 @@ func nativeReplay(dir, harness string, paths []string) (map[string]nativeOut, st
 		}
 		if usesLock {
 			ns = lockCallRe.ReplaceAllString(ns, "verifLock(&$1)")
+		}
+		for _, rw := range loadRewrites(hdir) {
+			if rw.File == base {
+				if rw.Regex {
+					ns = regexp.MustCompile(rw.From).ReplaceAllString(ns, rw.To)
+				} else {
+					ns = strings.ReplaceAll(ns, rw.From, rw.To)
+				}
+			}
 		}
 		if ns != s {
 			// keep the "time" import used
@@ -204,7 +312,12 @@ func nativeReplay(dir, harness string, paths []string) (map[string]nativeOut, st
 	ob, _ := json.Marshal(map[string]interface{}{"Replace": replace})
 	ovPath := filepath.Join(scratch, "overlay.json")
 	os.WriteFile(ovPath, ob, 0o644)
-	cmd := exec.Command("go", "test", "-tags=verif", "-modfile="+modfile, "-vet=off", "-count=1", "-timeout=300s", "-run", "^TestVerifReplay$", "-overlay", ovPath, "-v", ".")
+	targs := []string{"test", "-tags=verif", "-modfile=" + modfile, "-vet=off", "-count=1", "-timeout=300s", "-run", "^TestVerifReplay$", "-overlay", ovPath, "-v"}
+	if race {
+		targs = append(targs, "-race")
+	}
+	targs = append(targs, ".")
+	cmd := exec.Command("go", targs...)
 	cmd.Dir = pkgDir
 	cmd.Env = append(os.Environ(), "GOFLAGS=-mod=mod", "GOPROXY=off", "GOSUMDB=off", "GOTOOLCHAIN=local", "VERIF_REPLAY="+strings.Join(paths, ":"))
 	b, _ := cmd.CombinedOutput()
@@ -238,6 +351,13 @@ func nativeReplay(dir, harness string, paths []string) (map[string]nativeOut, st
 	}
 	if !sawFile {
 		return nil, "native replay did not run: " + lastLines(string(b), 12)
+	}
+	if race {
+		reps := raceReports(string(b))
+		for k, o := range res {
+			o.races = reps
+			res[k] = o
+		}
 	}
 	return res, ""
 }
@@ -302,4 +422,26 @@ func cmdReplay(args []string) int {
 		return 1
 	}
 	return 0
+}
+
+// rewriteRule is a line-preserving textual rewrite applied to a source file of the package under
+// test FOR NATIVE REPLAY ONLY (the symbolic run redirects the same calls by intrinsics): it lets
+// the harness summaries of opaque runtime objects stand in natively as well.
+type rewriteRule struct {
+	File  string `json:"file"`
+	From  string `json:"from"`
+	To    string `json:"to"`
+	Regex bool   `json:"regex"`
+}
+
+func loadRewrites(hdir string) []rewriteRule {
+	b, err := os.ReadFile(filepath.Join(hdir, "rewrite.json"))
+	if err != nil {
+		return nil
+	}
+	var rs []rewriteRule
+	if err := json.Unmarshal(b, &rs); err != nil {
+		panic("rewrite.json: " + err.Error())
+	}
+	return rs
 }
